@@ -60,6 +60,7 @@ class _Env:
         socket.if_nameindex = lambda: [(1, 'lo'), (2, 'eth0')]
         uuid.getnode = lambda: _LOCAL['node']
         mapper.get_interface_info = _get_interface_info
+        _deterministic_hashes()
         return self
 
     def __exit__(self, *exc):
@@ -69,6 +70,22 @@ class _Env:
         from supervisor import events
         events.clear()
         return False
+
+
+_HASHED = [False]
+
+
+def _deterministic_hashes():
+    """sets of ProcessStatus / ApplicationStatus are iterated by the code under test; the default id()-based hash
+    makes that order depend on memory addresses, i.e. differ between two executions of the same path.  Hash by
+    name instead (equality stays identity): same sets, reproducible order."""
+    if _HASHED[0]:
+        return
+    _HASHED[0] = True
+    from supvisors.process import ProcessStatus
+    from supvisors.application import ApplicationStatus
+    ProcessStatus.__hash__ = lambda self: hash(self.namespec)
+    ApplicationStatus.__hash__ = lambda self: hash(self.application_name)
 
 
 def rigged(scenario):
